@@ -29,20 +29,24 @@ import (
 // ---- C23: the SQLite store keeps every committed operation across SIGKILL ---
 //
 // The test binary re-executes itself as a child (TestC23Child). The child
-// opens the store in a directory chosen by the parent and applies an endless
-// operation history that is a pure function of (seed, generation); before
-// issuing operation i it writes "S i" and after the call returned "A i <result>"
-// to a pipe (one write(2) per line, nothing buffered). The parent SIGKILLs the
-// child at a generated point, reads the journal to the end, reopens the store
-// in its own process and compares it with the model of the acknowledged
-// operations (plus, possibly, the single operation in flight). The same
-// database is then handed to the next child: kill -> recover -> continue ->
-// kill chains.
+// opens c23Stores independent stores (one directory, one writer goroutine and
+// one seed each - starting a child is by far the most expensive step, so one
+// SIGKILL interrupts several stores at once) and applies to each an endless
+// operation history that is a pure function of the store's seed; before
+// issuing operation i on store j it writes "S j i" and after the call returned
+// "A j i <result>" to a pipe (one write(2) per line, nothing buffered). The
+// parent SIGKILLs the child at a generated point, reads the journal to the
+// end, reopens every store in its own process and compares it with the model
+// of the acknowledged operations (plus, possibly, the single operation in
+// flight on that store). The same databases are then handed to the next
+// child: kill -> recover -> continue -> kill chains.
 
 const (
 	c23EnvChild = "VERIF_KVCRASH_CHILD"
 	c23EnvDir   = "VERIF_C23_DIR"
 	c23EnvSeed  = "VERIF_C23_SEED"
+
+	c23Stores = 4
 
 	sigC23Reopen  = "sqlite-reopen-fails-after-kill"
 	sigC23State   = "sqlite-state-after-kill-is-not-acknowledged-prefix"
@@ -142,6 +146,10 @@ func wazeroCacheDir() string {
 	return d
 }
 
+func storeDir(dir string, j int) string { return filepath.Join(dir, fmt.Sprintf("store%d", j)) }
+
+func storeSeed(seed uint64, j int) uint64 { return seed + uint64(j)*0x9e3779b97f4a7c15 }
+
 func newSqlite(dir string) (*sqlite3.SqliteKV, error) {
 	if err := sqlite3.Initialize(wazeroCacheDir()); err != nil {
 		return nil, fmt.Errorf("sqlite3.Initialize: %w", err)
@@ -175,32 +183,39 @@ func TestC23Child(t *testing.T) {
 		os.Exit(6)
 	}
 	say("INIT\n")
-	kv, err := newSqlite(os.Getenv(c23EnvDir))
-	if err != nil {
-		say("OPENFAIL " + strings.ReplaceAll(err.Error(), "\n", " ") + "\n")
-		os.Exit(6)
+	kvs := make([]*sqlite3.SqliteKV, c23Stores)
+	for j := range kvs {
+		kv, err := newSqlite(storeDir(os.Getenv(c23EnvDir), j))
+		if err != nil {
+			say("OPENFAIL " + strconv.Itoa(j) + " " + strings.ReplaceAll(err.Error(), "\n", " ") + "\n")
+			os.Exit(6)
+		}
+		kvs[j] = kv
 	}
 	say("READY\n")
-	g := newC23Gen(seed)
-	deadline := time.Now().Add(120 * time.Second) // never outlive a lost parent
-	for i := 0; ; i++ {
-		o := g.next()
-		say("S " + strconv.Itoa(i) + "\n")
-		err := applyKV(kv, o)
-		res := "ok"
-		switch {
-		case err == nil:
-		case errors.Is(err, chord.ErrKVPrefixConflict), errors.Is(err, chord.ErrKVLeaseExpired):
-			res = "rej"
-		default:
-			res = "err:" + strings.ReplaceAll(err.Error(), "\n", " ")
-		}
-		say("A " + strconv.Itoa(i) + " " + res + "\n")
-		if i%256 == 0 && time.Now().After(deadline) {
-			say("TIMEOUT\n")
-			os.Exit(7)
-		}
+	for j, kv := range kvs {
+		go func() {
+			g := newC23Gen(storeSeed(seed, j))
+			tag := " " + strconv.Itoa(j) + " "
+			for i := 0; ; i++ {
+				o := g.next()
+				say("S" + tag + strconv.Itoa(i) + "\n")
+				err := applyKV(kv, o)
+				res := "ok"
+				switch {
+				case err == nil:
+				case errors.Is(err, chord.ErrKVPrefixConflict), errors.Is(err, chord.ErrKVLeaseExpired):
+					res = "rej"
+				default:
+					res = "err:" + strings.ReplaceAll(err.Error(), "\n", " ")
+				}
+				say("A" + tag + strconv.Itoa(i) + " " + res + "\n")
+			}
+		}()
 	}
+	time.Sleep(150 * time.Second) // never outlive a lost parent
+	say("TIMEOUT\n")
+	os.Exit(7)
 }
 
 // ---- parent ----------------------------------------------------------------------
@@ -240,8 +255,8 @@ func genKillPlan(r *rand.Rand) killPlan {
 type childRun struct {
 	ready    bool
 	openFail string
-	results  []string // per acknowledged operation: ok | rej | err:...
-	started  int      // number of S lines
+	results  [c23Stores][]string // per store and acknowledged operation: ok | rej | err:...
+	started  [c23Stores]int      // per store: number of S lines
 	exitErr  error
 	killedAt time.Duration
 	readyAt  time.Duration
@@ -259,9 +274,9 @@ func runC23Child(ctx context.Context, dir string, seed uint64, plan killPlan) (*
 		return nil, err
 	}
 	cmd := exec.Command(os.Args[0], "-test.run", "^TestC23Child$", "-test.count", "1", "-test.timeout", "0")
-	// the child is one writer; a small GOMAXPROCS keeps dozens of concurrent
+	// the child is c23Stores writers; a small GOMAXPROCS keeps dozens of concurrent
 	// children from thrashing the scheduler of a loaded machine
-	cmd.Env = append(os.Environ(), "GOMAXPROCS=2", c23EnvChild+"=c23", c23EnvDir+"="+dir, c23EnvSeed+"="+strconv.FormatUint(seed, 10))
+	cmd.Env = append(os.Environ(), "GOMAXPROCS=4", c23EnvChild+"=c23", c23EnvDir+"="+dir, c23EnvSeed+"="+strconv.FormatUint(seed, 10))
 	cmd.ExtraFiles = []*os.File{pw}
 	var errBuf strings.Builder
 	cmd.Stdout = &errBuf
@@ -307,25 +322,25 @@ func runC23Child(ctx context.Context, dir string, seed uint64, plan killPlan) (*
 			run.ready = true
 			run.readyAt = time.Since(t0)
 			guard2 = time.AfterFunc(30*time.Second, func() { run.timeout.Store(true); kill() })
-		case strings.HasPrefix(line, "S "):
-			n, _ := strconv.Atoi(line[2:])
-			if n != run.started {
+		case strings.HasPrefix(line, "S "), strings.HasPrefix(line, "A "):
+			f := strings.SplitN(line, " ", 4)
+			j, n := -1, -1
+			if len(f) >= 3 {
+				j, _ = strconv.Atoi(f[1])
+				n, _ = strconv.Atoi(f[2])
+			}
+			switch {
+			case j < 0 || j >= c23Stores:
+				run.extra = append(run.extra, "malformed "+line)
+			case f[0] == "S" && len(f) == 3 && n == run.started[j] && n == len(run.results[j]):
+				run.started[j] = n + 1
+			case f[0] == "A" && len(f) == 4 && n == len(run.results[j]) && run.started[j] == n+1:
+				run.results[j] = append(run.results[j], f[3])
+			default:
 				run.extra = append(run.extra, "out-of-order "+line)
 			}
-			run.started = n + 1
-			if !armed && plan.Line == "S" && n >= plan.Index {
-				armed = true
-			}
-		case strings.HasPrefix(line, "A "):
-			f := strings.SplitN(line, " ", 3)
-			n, _ := strconv.Atoi(f[1])
-			if n != len(run.results) || len(f) < 3 {
-				run.extra = append(run.extra, "out-of-order "+line)
-			}
-			if len(f) == 3 {
-				run.results = append(run.results, f[2])
-			}
-			if !armed && plan.Line == "A" && n >= plan.Index {
+			// the kill plan watches store 0; the other stores are wherever they are
+			if !armed && j == 0 && plan.Line == f[0] && n >= plan.Index {
 				armed = true
 			}
 		case strings.HasPrefix(line, "OPENFAIL "):
@@ -441,62 +456,73 @@ type c23Outcome struct {
 	next   model
 }
 
-// oneKill runs one generation of a chain: child, kill, reopen, compare.
-func oneKill(ctx context.Context, dir string, cs c23Case, m model) c23Outcome {
-	out := c23Outcome{doc: map[string]any{"case": cs}}
+// oneKill runs one generation of a chain: one child, one SIGKILL, then every
+// store is reopened and compared. It returns one outcome per store, or a
+// single child-level outcome (inconclusive / reopen failure seen by the child).
+func oneKill(ctx context.Context, dir string, cs c23Case, ms []model) []c23Outcome {
+	whole := func(o c23Outcome) []c23Outcome {
+		o.doc = map[string]any{"case": cs}
+		return []c23Outcome{o}
+	}
 	run, err := runC23Child(ctx, dir, cs.Seed, cs.Plan)
 	if err != nil {
-		out.incon = "child-spawn-failed"
-		out.msg = err.Error()
-		return out
+		return whole(c23Outcome{incon: "child-spawn-failed", msg: err.Error()})
 	}
 	if run.openFail != "" {
 		// the previous generation's reopen in the parent succeeded, so this is
 		// a reopen failure after a kill too (or the very first open failed)
 		if cs.Gen == 0 {
-			out.incon = "child-first-open-failed"
-			out.msg = run.openFail
-			return out
+			return whole(c23Outcome{incon: "child-first-open-failed", msg: run.openFail})
 		}
-		out.sig, out.msg = sigC23Reopen, "child of generation "+strconv.Itoa(cs.Gen)+" could not open the store: "+run.openFail
-		return out
+		return whole(c23Outcome{sig: sigC23Reopen, msg: "child of generation " + strconv.Itoa(cs.Gen) + " could not open store " + run.openFail})
 	}
 	if !run.ready {
-		out.incon = "child-never-ready"
-		out.msg = fmt.Sprintf("exit=%v output=%s", run.exitErr, tail(run.stderr, 800))
-		return out
+		return whole(c23Outcome{incon: "child-never-ready", msg: fmt.Sprintf("exit=%v output=%s", run.exitErr, tail(run.stderr, 800))})
 	}
 	if ws, ok := exitStatus(run.exitErr); !ok || !ws.Signaled() || ws.Signal() != syscall.SIGKILL {
-		out.incon = "child-exited-by-itself"
-		out.msg = fmt.Sprintf("exit=%v journal-extra=%v output=%s", run.exitErr, run.extra, tail(run.stderr, 800))
-		return out
+		return whole(c23Outcome{incon: "child-exited-by-itself", msg: fmt.Sprintf("exit=%v journal-extra=%v output=%s", run.exitErr, run.extra, tail(run.stderr, 800))})
 	}
 	if len(run.extra) > 0 {
-		out.incon = "journal-garbled"
-		out.msg = fmt.Sprint(run.extra)
-		return out
+		return whole(c23Outcome{incon: "journal-garbled", msg: fmt.Sprint(run.extra)})
 	}
-	acked := len(run.results)
+	outs := make([]c23Outcome, c23Stores)
+	var wg sync.WaitGroup
+	for j := range outs {
+		wg.Add(1)
+		go func() {
+			defer wg.Done()
+			outs[j] = checkStoreAfterKill(storeDir(dir, j), cs, j, run, ms[j])
+		}()
+	}
+	wg.Wait()
+	if os.Getenv("VERIF_DEBUG") != "" {
+		fmt.Printf("DEBUG c23 chain=%d gen=%d boot=%v init=%v ready=%v end=%v acked=%d/%d/%d/%d\n", cs.Chain, cs.Gen, run.bootAt, run.initAt, run.readyAt, run.endAt,
+			len(run.results[0]), len(run.results[1]), len(run.results[2]), len(run.results[3]))
+	}
+	return outs
+}
+
+// checkStoreAfterKill reopens store j of a killed child and compares.
+func checkStoreAfterKill(dir string, cs c23Case, j int, run *childRun, m model) c23Outcome {
+	out := c23Outcome{doc: map[string]any{"case": cs, "store": j, "store_seed": storeSeed(cs.Seed, j)}}
+	results := run.results[j]
+	acked := len(results)
 	inflight := -1
-	if run.started == acked+1 {
+	if run.started[j] == acked+1 {
 		inflight = acked
-	} else if run.started != acked {
-		out.incon = "journal-garbled"
-		out.msg = fmt.Sprintf("started=%d acked=%d", run.started, acked)
-		return out
 	}
 
 	// the same history, regenerated
-	g := newC23Gen(cs.Seed)
+	g := newC23Gen(storeSeed(cs.Seed, j))
 	m0 := m.clone()
 	mismatch := 0
 	var lastOps []string
 	for i := 0; i < acked; i++ {
 		o := g.next()
 		if i >= acked-5 {
-			lastOps = append(lastOps, fmt.Sprintf("%d:%s=%s", i, o, run.results[i]))
+			lastOps = append(lastOps, fmt.Sprintf("%d:%s=%s", i, o, results[i]))
 		}
-		switch res := run.results[i]; {
+		switch res := results[i]; {
 		case res == "ok":
 			if m0.wouldReject(o) {
 				mismatch++
@@ -539,12 +565,6 @@ func oneKill(ctx context.Context, dir string, cs c23Case, m model) c23Outcome {
 	}
 	out.doc["db_bytes_at_kill"] = dbSize
 
-	tr := time.Now()
-	defer func() {
-		if os.Getenv("VERIF_DEBUG") != "" {
-			fmt.Printf("DEBUG c23 chain=%d gen=%d boot=%v init=%v ready=%v end=%v acked=%d parent-check=%v %s\n", cs.Chain, cs.Gen, run.bootAt, run.initAt, run.readyAt, run.endAt, acked, time.Since(tr), strings.TrimSpace(run.stderr))
-		}
-	}()
 	kv, err := newSqlite(dir)
 	if err != nil {
 		out.sig, out.msg = sigC23Reopen, fmt.Sprintf("sqlite3.New after SIGKILL (acked=%d in-flight=%d): %v", acked, inflight, err)
@@ -613,7 +633,7 @@ func oneKill(ctx context.Context, dir string, cs c23Case, m model) c23Outcome {
 	if run.timeout.Load() {
 		out.labels = append(out.labels, "kill:by-safety-timer")
 	}
-	out.sample = map[string]any{"case": cs, "acknowledged": acked, "in_flight_op": out.doc["in_flight_op"], "fate": fate, "wal_bytes_at_kill": walSize, "db_bytes_at_kill": dbSize}
+	out.sample = map[string]any{"case": cs, "store": j, "acknowledged": acked, "in_flight_op": out.doc["in_flight_op"], "fate": fate, "wal_bytes_at_kill": walSize, "db_bytes_at_kill": dbSize}
 	out.doc["fate"] = fate
 	return out
 }
@@ -661,7 +681,7 @@ func exitStatus(err error) (syscall.WaitStatus, bool) {
 
 func TestC23(t *testing.T) {
 	rec := ev.New(t, "C23")
-	rec.Rule("chains of kill -> reopen -> continue on one database: a re-executed child opens the SQLite store and applies an endless history that is a pure function of a seed (put with unique 12 B..20 KB values, delete, prefix append over 4 children so that conflicts are frequent, prefix remove, import of 1..10 keys in one transaction with children and lease tokens, remove-keys of 1..5 keys, release with right/wrong token; 12 keys incl. k1/k10/k11), journalling 'S i' before and 'A i result' after each call on a pipe; the parent SIGKILLs it after a generated journal line (operation 0..11 / ..311 / ..1799 / beyond, so that the WAL passes the 4 MiB auto-checkpoint size) plus 0..900 us, reopens in-process and compares Get/PrefixList/lease of every key with model(acknowledged) or model(acknowledged + the operation in flight), then ListKeys / RangeKeys(0,0) against those reads. One evaluation = one kill. Non-trivial: the kill landed between an operation's S line and its A line. Distinct = distinct (chain, generation, seed, kill plan).")
+	rec.Rule("chains of kill -> reopen -> continue on one database: a re-executed child opens the SQLite store and applies an endless history that is a pure function of a seed (put with unique 12 B..20 KB values, delete, prefix append over 4 children so that conflicts are frequent, prefix remove, import of 1..10 keys in one transaction with children and lease tokens, remove-keys of 1..5 keys, release with right/wrong token; 12 keys incl. k1/k10/k11), journalling 'S i' before and 'A i result' after each call on a pipe; the parent SIGKILLs it after a generated journal line (operation 0..11 / ..311 / ..1799 / beyond, so that the WAL passes the 4 MiB auto-checkpoint size) plus 0..900 us, reopens in-process and compares Get/PrefixList/lease of every key with model(acknowledged) or model(acknowledged + the operation in flight), then ListKeys / RangeKeys(0,0) against those reads. One child hosts 4 independent stores (own directory, seed, writer goroutine), so one SIGKILL interrupts 4 stores; one evaluation = one (store, kill). Non-trivial: the kill landed between an operation's S line and its A line on that store. Distinct = distinct (chain, generation, seed, kill plan, store).")
 	rec.Assume(
 		"SIGKILL only: the OS page cache survives, so fsync policy (synchronous pragma) and power loss are out of reach of this check",
 		"acknowledged = the call returned to the child and its A line reached the pipe; an operation whose A line is missing may or may not be visible",
@@ -683,11 +703,12 @@ func TestC23(t *testing.T) {
 	ctx, cancel := context.WithCancel(context.Background())
 	defer cancel()
 
+	var childKills atomic.Int64
 	type result struct {
 		cs  c23Case
 		out c23Outcome
 	}
-	results := make(chan result, chains*gens)
+	results := make(chan result, chains*gens*c23Stores)
 	var wg sync.WaitGroup
 	sem := make(chan struct{}, workers)
 	for c := 0; c < chains; c++ {
@@ -702,29 +723,42 @@ func TestC23(t *testing.T) {
 				return
 			}
 			r := rand.New(rand.NewPCG(seed, uint64(c)+1))
-			m := model{}
+			ms := make([]model, c23Stores)
+			for j := range ms {
+				ms[j] = model{}
+			}
 			for g := 0; g < gens; g++ {
 				if ctx.Err() != nil {
 					return
 				}
 				cs := c23Case{Chain: c, Gen: g, Seed: r.Uint64N(1 << 40), Plan: genKillPlan(r)}
-				out := oneKill(ctx, dir, cs, m)
-				results <- result{cs, out}
-				if out.sig != "" || out.incon != "" {
-					return // the chain's model state is unknown from here on
+				outs := oneKill(ctx, dir, cs, ms)
+				childKills.Add(1)
+				stop := len(outs) != c23Stores
+				for j, out := range outs {
+					results <- result{cs, out}
+					if out.sig != "" || out.incon != "" {
+						stop = true // the chain's model state is unknown from here on
+					} else if !stop {
+						ms[j] = out.next
+					}
 				}
-				m = out.next
+				if stop {
+					return
+				}
 			}
 		}()
 	}
 	go func() { wg.Wait(); close(results) }()
 
 	var firstFail *result
+	defer func() { rec.Note("children_killed", childKills.Load()) }()
 	for r := range results {
 		out := r.out
 		switch {
 		case out.incon != "":
 			rec.Inconclusive(out.incon)
+			rec.Add("children_inconclusive", 1)
 			fmt.Printf("C23 inconclusive chain=%d gen=%d: %s: %s\n", r.cs.Chain, r.cs.Gen, out.incon, oneLine(out.msg))
 		case out.sig != "":
 			if firstFail == nil {
@@ -733,7 +767,8 @@ func TestC23(t *testing.T) {
 				cancel()
 			}
 		default:
-			rec.Case(out.nt, fmt.Sprintf("%d/%d/%d/%+v", r.cs.Chain, r.cs.Gen, r.cs.Seed, r.cs.Plan), func() any { return out.sample }, out.labels...)
+			rec.Case(out.nt, fmt.Sprintf("%d/%d/%d/%+v/%v", r.cs.Chain, r.cs.Gen, r.cs.Seed, r.cs.Plan, out.doc["store"]), func() any { return out.sample }, out.labels...)
+			rec.Add("store_kills", 1)
 			if mm, _ := out.doc["outcome_model_mismatches"].(int); mm > 0 {
 				rec.Add("acknowledged_outcome_differs_from_model", int64(mm))
 			}
